@@ -46,23 +46,33 @@ func (p *PKCS7PaddingReader) Read(buf []byte) (int, error) {
 	var n, off = 0, 0
 	var err error
 	if !p.eof {
-		// 读取文件
-		n, err = p.fIn.Read(buf)
-		if err != nil && !errors.Is(err, io.EOF) {
-			// 错误返回
-			return 0, err
+		// 读取文件：短读不代表文件结束，持续读取直到缓冲区填满或遇到EOF
+		for n < len(buf) && !p.eof {
+			var m int
+			m, err = p.fIn.Read(buf[n:])
+			if err != nil && !errors.Is(err, io.EOF) {
+				// 错误返回
+				return 0, err
+			}
+			n += m
+			p.readed += int64(m)
+			if errors.Is(err, io.EOF) {
+				// 标志文件结束
+				p.eof = true
+			} else if m == 0 {
+				// 没有读取到数据也没有结束，交给调用者重试
+				return n, nil
+			}
 		}
-		p.readed += int64(n)
-		if errors.Is(err, io.EOF) {
-			// 标志文件结束
-			p.eof = true
-		}
-		if n == len(buf) {
+		if !p.eof {
 			// 长度足够直接返回
 			return n, nil
 		}
-		// 文件长度已经不足，根据已经已经读取的长度创建Padding
+		// 文件已经结束，根据已经已经读取的长度创建Padding
 		p.newPadding()
+		if n == len(buf) {
+			return n, nil
+		}
 		// 长度不足向Padding中索要
 		off = n
 	}
